@@ -37,6 +37,7 @@ import (
 	"github.com/siglens/siglens/pkg/segment/structs"
 	sutils "github.com/siglens/siglens/pkg/segment/utils"
 	"github.com/siglens/siglens/pkg/utils"
+	"github.com/siglens/siglens/pkg/verifhook"
 	log "github.com/sirupsen/logrus"
 	"github.com/valyala/fasthttp"
 )
@@ -298,6 +299,7 @@ func addToWaitingQueriesQueue(wsData *WaitStateData) error {
 		return fmt.Errorf("addToWaitingQueriesQueue: qid=%v cannot be started, Max number of waiting queries reached", wsData.qid)
 	}
 	waitingQueries = append(waitingQueries, wsData)
+	verifhook.At("q.enqueue", "qid", wsData.qid, "nwait", len(waitingQueries))
 
 	return nil
 }
@@ -430,6 +432,7 @@ func (rQuery *RunningQueryState) withLockDeleteQuery() {
 	}
 
 	delete(allRunningQueries, rQuery.qid)
+	verifhook.At("q.delete", "qid", rQuery.qid, "cancelled", rQuery.isCancelled, "nrun", len(allRunningQueries))
 
 	if hook := hooks.GlobalHooks.RemoveUsageForRotatedSegmentsHook; hook != nil {
 		hook(rQuery.qid)
@@ -460,6 +463,7 @@ func getNextWaitStateData() *WaitStateData {
 
 	wsData := waitingQueries[0]
 	waitingQueries = waitingQueries[1:]
+	verifhook.At("q.dequeue", "qid", wsData.qid, "nwait", len(waitingQueries))
 	return wsData
 }
 
@@ -499,9 +503,11 @@ func setupTimeoutCancelFunc(qid uint64) context.CancelFunc {
 			rQuery, ok := allRunningQueries[qid]
 			arqMapLock.RUnlock()
 
+			verifhook.At("q.timeout.fire", "qid", qid, "found", ok, "deadline", ctx.Err() == context.DeadlineExceeded)
 			if ok && ctx.Err() == context.DeadlineExceeded {
 				log.Infof("qid=%v Canceling query due to timeout (%v seconds)", qid, timeoutSecs)
 				rQuery.StateChan <- &QueryStateChanData{StateName: TIMEOUT, Qid: qid}
+				verifhook.At("q.timeout.sent", "qid", qid)
 				CancelQuery(qid)
 			}
 		}()
@@ -512,16 +518,19 @@ func setupTimeoutCancelFunc(qid uint64) context.CancelFunc {
 
 func withLockRunQuery(wsData *WaitStateData) {
 	if wsData.rQuery.isCancelled {
+		verifhook.At("q.run.skip", "qid", wsData.qid)
 		return
 	}
 
 	allRunningQueries[wsData.qid] = wsData.rQuery
+	verifhook.At("q.run", "qid", wsData.qid, "nrun", len(allRunningQueries), "max", MAX_RUNNING_QUERIES)
 
 	wsData.rQuery.timeoutCancelFunc = setupTimeoutCancelFunc(wsData.qid)
 	wsData.rQuery.startTime = time.Now()
 
 	wsData.rQuery.StateChan <- &QueryStateChanData{StateName: READY, Qid: wsData.qid}
 	wsData.rQuery.StateChan <- &QueryStateChanData{StateName: RUNNING, Qid: wsData.qid}
+	verifhook.At("q.run.sent", "qid", wsData.qid)
 }
 
 func RunQuery(wsData WaitStateData) {
@@ -795,10 +804,12 @@ func CancelQuery(qid uint64) {
 	arqMapLock.RUnlock()
 	if !ok {
 		log.Debugf("CancelQuery: qid %+v does not exist!", qid)
+		verifhook.At("q.cancel.miss", "qid", qid)
 		return
 	}
 	rQuery.rqsLock.Lock()
 	rQuery.isCancelled = true
+	verifhook.At("q.cancel.mark", "qid", qid)
 	if rQuery.cleanupCallback != nil {
 		rQuery.cleanupCallback()
 	}
@@ -814,6 +825,7 @@ func CancelQuery(qid uint64) {
 	}
 
 	rQuery.StateChan <- &QueryStateChanData{StateName: CANCELLED, Qid: qid}
+	verifhook.At("q.cancel.sent", "qid", qid)
 }
 
 func GetBucketsForQid(qid uint64) (map[string]*structs.AggregationResult, error) {
